@@ -7380,6 +7380,10 @@ class DDLCompiler(Compiled):
         else:
             schema_name = None
 
+        if index.name is None or index.name is _NONE_NAME:
+            raise exc.CompileError(
+                "CREATE INDEX requires that the index have a name"
+            )
         index_name: str = self.preparer.format_index(index)
 
         if schema_name:
